@@ -493,6 +493,23 @@ func c04Gen(rt *rapid.T) c04Case {
 			ns = 1
 		}
 		off, sc := smallF32s(rt, no, 3, "offset"), smallF32s(rt, ns, 3, "scale")
+		if rapid.Bool().Draw(rt, "decimalAttrs") {
+			// values that are not short binary fractions (means and inverse standard deviations)
+			for i, v := range genDotValues(rt, no, "offsetD") {
+				off[i] = float32(v)
+			}
+			for i, v := range genDotValues(rt, ns, "scaleD") {
+				sc[i] = float32(v)
+			}
+		}
+		if c.dt == tensor.Float32 && rapid.IntRange(0, 2).Draw(rt, "nearOffset") == 0 {
+			// standardised data sits close to its mean: inputs within a few percent of the offset
+			for i := range xv {
+				xv[i] = float64(float32(float64(off[(i%f)%no]) * (1 + float64(rapid.IntRange(-40, 40).Draw(rt, "rel"))/1000)))
+			}
+			X = toDtype(c.dt, []int{nS, f}, xv)
+			xv = f64s(X)
+		}
 		attrs := rapid.Permutation([]*onnx.AttributeProto{attrFs("offset", off...), attrFs("scale", sc...)}).Draw(rt, "attrOrder")
 		c.node = mkNode("Scaler", nil, []string{"y"}, attrs...)
 		c.ins = []tensor.Tensor{X}
@@ -502,7 +519,10 @@ func c04Gen(rt *rapid.T) c04Case {
 			for j := 0; j < f; j++ {
 				o, s := float64(off[j%no]), float64(sc[j%ns])
 				r.val = append(r.val, (xv[i*f+j]-o)*s)
-				r.cond = append(r.cond, (math.Abs(xv[i*f+j])+math.Abs(o))*math.Abs(s))
+				// the ONNX-ML formula is (x - offset) * scale: the difference of two floats is
+				// rounded once, relative to the difference itself, so the bound is relative to the
+				// result and not to |x| + |offset| (which would also admit x*scale - offset*scale)
+				r.cond = append(r.cond, math.Abs(xv[i*f+j]-o)*math.Abs(s))
 			}
 		}
 		c.ref = r
